@@ -41,7 +41,7 @@ def r_transformable(rule, types=("Interval", "Grad"), root=None):
         body = A.strip(cl["body"])
         stmts = body["stmts"] if body.get("k") == "Block" else [{"k": "ExprStmt", "e": body, "semi": False}]
         rowlet = [s for s in stmts if s.get("k") == "Let"]
-        ok_row = len(rowlet) == 1 and A.unparse(rowlet[0]["init"]).replace(" ", "") == "%s.row(%s)" % (params[3], ivar)
+        ok_row = len(rowlet) == 1 and A.ftxt(rowlet[0]["init"]) == "%s.row(%s)" % (params[3], ivar)
         if not ok_row:
             rule.bad(key + "|row", "Transformable for %s: `row` must be `%s.row(%s)`" % (ty, params[3], ivar), A.where(fn))
             continue
@@ -77,8 +77,8 @@ def r_transformable(rule, types=("Interval", "Grad"), root=None):
                 if not (
                     el.get("k") == "Binary"
                     and el["op"] == "/"
-                    and A.unparse(A.strip(el["left"])).replace(" ", "") == "%s[%d]" % (outn, k)
-                    and A.unparse(A.strip(el["right"])).replace(" ", "") == "%s[3]" % outn
+                    and A.ftxt(A.strip(el["left"])) == "%s[%d]" % (outn, k)
+                    and A.ftxt(A.strip(el["right"])) == "%s[3]" % outn
                 ):
                     good = False
                     rule.bad(key + "|div%d" % k, "Transformable for %s: component %d is `%s`; every component must be `%s[%d] / %s[3]` (the homogeneous divide, on the full %s value)" % (ty, k, A.unparse(el), outn, k, outn, ty), A.where(fn, el))
@@ -89,7 +89,7 @@ def r_transformable(rule, types=("Interval", "Grad"), root=None):
     if "f32" in types:
         fn = transform_fn("f32", root)
         params = [A.binding_name(i["pat"]) for i in fn["sig"]["inputs"] if "pat" in i]
-        t = A.unparse(fn["body"]).replace(" ", "")
+        t = A.ftxt(fn["body"])
         if "letout=%s.transform_point(&Point3::new(%s,%s,%s));" % (params[3], params[0], params[1], params[2]) in t and t.endswith("(out.x,out.y,out.z)}"):
             rule.ok("f32: transform_point(Point3(x, y, z)) -> (x, y, z)", file=SHAPE, line=fn["ln"])
         else:
@@ -112,18 +112,18 @@ def r_axis_binding(rule, root=None):
         rule.lost("match var {Var::X ..} in ShapeTracingEval::eval_raw")
     else:
         for arm in ms[0]["arms"]:
-            pt = A.unparse(arm["pat"]).replace(" ", "")
+            pt = A.ftxt(arm["pat"])
             body = A.strip(arm["body"])
             if pt in ("Var::X", "Var::Y", "Var::Z"):
                 want = xyz["XYZ".index(pt[-1])]
-                ok = body.get("k") == "Assign" and A.unparse(body["left"]).replace(" ", "") == "self.scratch[index]" and A.ident(A.strip(body["right"])) == want
+                ok = body.get("k") == "Assign" and A.ftxt(body["left"]) == "self.scratch[index]" and A.ident(A.strip(body["right"])) == want
                 if ok:
                     rule.ok("tracing: %s bound to `%s`" % (pt, want), file=SHAPE, line=arm["ln"])
                 else:
                     rule.bad("tracing|%s" % pt, "ShapeTracingEval::eval_raw binds %s with `%s`; it must store `%s` at the variable's own index" % (pt, A.unparse(body), want), A.where(t, arm))
             elif pt.startswith("Var::V("):
                 vn = pt[len("Var::V("):-1]
-                tt = A.unparse(body).replace(" ", "")
+                tt = A.ftxt(body)
                 ok = "vars.get(%s)" % vn in tt and "MissingVar{var:%s}" % vn in tt and "self.scratch[index]=" in tt and "return" in tt
                 if ok:
                     rule.ok("tracing: Var::V looked up by its own id; missing -> MissingVar", file=SHAPE, line=arm["ln"])
@@ -136,7 +136,7 @@ def r_axis_binding(rule, root=None):
             rule.lost("Transformable::transform call in %s eval_raw" % label)
             continue
         c = calls[0]
-        args = [A.unparse(a).replace(" ", "") for a in c["args"]]
+        args = [A.ftxt(a) for a in c["args"]]
         want = ["x", "y", "z"] if label == "tracing" else ["x[i]", "y[i]", "z[i]"]
         if args[:3] == want and args[3] == "t":
             rule.ok("%s: transform(x, y, z, t) in axis order" % label, file=SHAPE, line=c["ln"])
@@ -145,12 +145,12 @@ def r_axis_binding(rule, root=None):
         # the enclosing `if let Some(t) = transform {..} else {(x,y,z)}` binds (x,y,z)
         for i in A.find(fn["body"], "If"):
             if any(n is c for n in A.walk(i["then"])):
-                el = A.unparse(i.get("else")).replace(" ", "")
+                el = A.ftxt(i.get("else"))
                 if el != "{(%s)}" % ",".join(want):
                     rule.bad("%s|no-transform" % label, "%s eval_raw without a transform must pass (%s) through unchanged, found %s" % (label, ", ".join(want), el), A.where(fn, i))
                 else:
                     rule.ok("%s: identity branch passes (x, y, z) through" % label)
-                if A.unparse(i["cond"]).replace(" ", "") != "letSome(t)=transform":
+                if A.ftxt(i["cond"]) != "letSome(t)=transform":
                     rule.bad("%s|transform-cond" % label, "the transform must be applied whenever one is supplied", A.where(fn, i))
     # bulk: Var::X => axes[0] ... ; scratch[a][i] = x
     ms = [m for m in A.find(b["body"], "Match") if any("Var::X" in A.unparse(a["pat"]) for a in m["arms"])]
@@ -158,8 +158,8 @@ def r_axis_binding(rule, root=None):
         rule.lost("match var in ShapeBulkEval::eval_raw")
         return
     for arm in ms[0]["arms"]:
-        pt = A.unparse(arm["pat"]).replace(" ", "")
-        tt = A.unparse(A.strip(arm["body"])).replace(" ", "")
+        pt = A.ftxt(arm["pat"])
+        tt = A.ftxt(A.strip(arm["body"]))
         if pt in ("Var::X", "Var::Y", "Var::Z"):
             k = "XYZ".index(pt[-1])
             if tt == "axes[%d]=Some(index)" % k:
@@ -174,12 +174,12 @@ def r_axis_binding(rule, root=None):
                 rule.bad("bulk|Var::V", "a free variable's row must be filled with copy_vars(&mut self.scratch[index], %s)?" % vn, A.where(b, arm))
     pairs = {}
     for i in A.find(b["body"], "If"):
-        c = A.unparse(i["cond"]).replace(" ", "")
+        c = A.ftxt(i["cond"])
         import re
 
         m = re.fullmatch(r"letSome\((\w+)\)=axes\[(\d)\]", c)
         if m:
-            tt = A.unparse(i["then"]).replace(" ", "")
+            tt = A.ftxt(i["then"])
             m2 = re.fullmatch(r"\{self\.scratch\[%s\]\[i\]=(\w+);\}" % m.group(1), tt)
             pairs[int(m.group(2))] = m2.group(1) if m2 else tt
     for k, ax in enumerate("xyz"):
@@ -188,8 +188,8 @@ def r_axis_binding(rule, root=None):
         else:
             rule.bad("bulk|axes%d" % k, "the row remembered in axes[%d] must receive `%s`, found `%s`" % (k, ax, pairs.get(k)), A.where(b))
     # result is output 0
-    t1 = A.unparse(t["body"]["stmts"][-1]).replace(" ", "")
-    t2 = A.unparse(b["body"]["stmts"][-1]).replace(" ", "")
+    t1 = A.ftxt(t["body"]["stmts"][-1])
+    t2 = A.ftxt(b["body"]["stmts"][-1])
     if t1 == "Ok((out[0],trace))" and t2 == "Ok(out.borrow(0))":
         rule.ok("both wrappers return output 0")
     else:
@@ -200,19 +200,19 @@ def r_arg_checks(rule, root=None):
     """too few variables / mismatched slices are reported as errors; extras are allowed"""
     fn = A.find_fn(VAR, "check_tracing_arguments", self_ty="VarMap", root=root)
     ifs = list(A.find(fn["body"], "If"))
-    c = A.unparse(A.strip(ifs[0]["cond"])).replace(" ", "") if ifs else ""
-    if c == "(vars.len()<self.len())" and "Err(TracingArgError::BadVarSlice" in A.unparse(ifs[0]["then"]).replace(" ", "") and "Ok(())" in A.unparse(ifs[0].get("else")):
+    c = A.ftxt(A.strip(ifs[0]["cond"])) if ifs else ""
+    if c == "(vars.len()<self.len())" and "Err(TracingArgError::BadVarSlice" in A.ftxt(ifs[0]["then"]) and "Ok(())" in A.unparse(ifs[0].get("else")):
         rule.ok("check_tracing_arguments: Err iff fewer slots than variables", file=VAR, line=fn["ln"])
     else:
         rule.bad("tracing-args", "check_tracing_arguments must return BadVarSlice exactly when vars.len() < self.len() (found `%s`)" % c, A.where(fn))
     fn = A.find_fn(VAR, "check_bulk_arguments", self_ty="VarMap", root=root)
     ifs = list(A.find(fn["body"], "If"))
-    c = A.unparse(A.strip(ifs[0]["cond"])).replace(" ", "") if ifs else ""
-    if c == "(vars.len()<self.len())" and "Err(BulkArgError::BadVarSlice" in A.unparse(ifs[0]["then"]).replace(" ", ""):
+    c = A.ftxt(A.strip(ifs[0]["cond"])) if ifs else ""
+    if c == "(vars.len()<self.len())" and "Err(BulkArgError::BadVarSlice" in A.ftxt(ifs[0]["then"]):
         rule.ok("check_bulk_arguments: Err iff fewer slices than variables", file=VAR, line=fn["ln"])
     else:
         rule.bad("bulk-args|count", "check_bulk_arguments must return BadVarSlice exactly when vars.len() < self.len()", A.where(fn))
-    t = A.unparse(fn["body"]).replace(" ", "")
+    t = A.ftxt(fn["body"])
     # the reference length is the first slice's; every supplied slice is compared (evaluators read them all)
     if "letSome(n)=vars.first().map(|v|v.len())else{returnOk(());}" in t and "vars.iter().enumerate().find(|(_i,v)|(v.len()!=n))" in t and "MismatchedSlices" in t:
         rule.ok("check_bulk_arguments: every supplied slice is compared with the first one's length", file=VAR, line=fn["ln"])
@@ -222,8 +222,8 @@ def r_arg_checks(rule, root=None):
     _t, b = shape_eval_fns(root)
     errs = []
     for i in A.find(b["body"], "If"):
-        c = A.unparse(A.strip(i["cond"])).replace(" ", "")
-        if c in ("(x.len()!=y.len())", "(x.len()!=z.len())") and "returnErr(ShapeBulkEvalError::MismatchedVarSlices" in A.unparse(i["then"]).replace(" ", ""):
+        c = A.ftxt(A.strip(i["cond"]))
+        if c in ("(x.len()!=y.len())", "(x.len()!=z.len())") and "returnErr(ShapeBulkEvalError::MismatchedVarSlices" in A.ftxt(i["then"]):
             errs.append(c)
     if len(errs) == 2:
         rule.ok("ShapeBulkEval::eval_raw: x/y and x/z length mismatches are errors", file=SHAPE, line=b["ln"])
@@ -244,7 +244,7 @@ def r_shape_scratch(rule, root=None):
     ev = [c for c in calls if c["method"] == "eval" and c["recv"].endswith("self.eval")]
     rs = [c for c in calls if c["method"] == "resize_with" and c["recv"] == "self.scratch" and c["args"] and c["args"][0] == "vs.len().max(1)" and not c["conds"]]
     rows = [c for c in calls if c["method"] == "resize" and c["args"] and c["args"][0] == "n" and c["loops"] == 1 and not c["conds"]]
-    fors = [f for f in A.find(b["body"], "For") if A.unparse(f["iter"]).replace(" ", "") == "&mutself.scratch"]
+    fors = [f for f in A.find(b["body"], "For") if A.ftxt(f["iter"]) == "&mutself.scratch"]
     if rs and ev and rs[0]["i"] < ev[0]["i"]:
         rule.ok("ShapeBulkEval: scratch rows resized to max(variable count, 1) on every call", file=SHAPE, line=rs[0]["node"]["ln"])
     else:
